@@ -164,7 +164,9 @@ impl Walker {
                 }
             }
         }
-        let e = self.rep.by_kind.entry(r.kind.clone()).or_insert((0, 0));
+        // statistics per kind (all primitives / all opaque library types pooled)
+        let pooled = r.kind.split(':').next().unwrap_or("").to_string();
+        let e = self.rep.by_kind.entry(pooled).or_insert((0, 0));
         e.0 += 1;
         if n > 0 {
             e.1 += 1;
